@@ -1,12 +1,15 @@
 package props
 
 import (
+	"bufio"
+	"bytes"
 	"encoding/json"
 	"fmt"
 	"os"
 	"os/exec"
 	"path/filepath"
 	"sort"
+	"strconv"
 	"strings"
 	"time"
 
@@ -289,6 +292,12 @@ func runC19(r *core.Run) {
 		for _, a := range bargs {
 			exprs = append(exprs, n+"("+a+")")
 		}
+		// every pair of boundary values in the second/third position after a string, and in the first two positions
+		for _, b := range bargs {
+			for _, c := range bargs {
+				exprs = append(exprs, n+"('abcdef', "+b+", "+c+")", n+"("+b+", "+c+")")
+			}
+		}
 		for k := 0; k < per; k++ {
 			a, b, c := bargs[r.Rand.Intn(len(bargs))], bargs[r.Rand.Intn(len(bargs))], bargs[r.Rand.Intn(len(bargs))]
 			switch k % 3 {
@@ -313,34 +322,7 @@ func runC19(r *core.Run) {
 			"DECLARE c CURSOR FOR SELECT id FROM t; OPEN c; VAR @x; FETCH ABSOLUTE "+a+" c INTO @x; FETCH RELATIVE "+a+" c INTO @x;",
 			"SELECT id FROM t WHERE id IN (SELECT id FROM t LIMIT "+a+");", "SELECT LISTAGG(v, "+a+") FROM t;", "SELECT id, SUM(id) OVER (ORDER BY id ROWS BETWEEN 1 PRECEDING AND CURRENT ROW) FROM t LIMIT "+a+";")
 	}
-	nw := 8
-	classes := make([]string, len(stmts))
-	errs := make([]string, len(stmts))
-	chunk := (len(stmts) + nw - 1) / nw
-	core.Parallel(nw, nw, func(w int) {
-		dir := r.Dir(fmt.Sprintf("bf%d", w))
-		writeFile(filepath.Join(dir, "t.csv"), "id,v\n1,a\n2,b\n3,\n")
-		for i := w * chunk; i < (w+1)*chunk && i < len(stmts); i++ {
-			p, err := sut.NewProc(dir, nil)
-			if err != nil {
-				core.Fail("proc: %v", err)
-			}
-			done := make(chan sut.Res, 1)
-			go func(s string) { done <- p.Exec(s) }(stmts[i])
-			select {
-			case res := <-done:
-				classes[i] = "ok"
-				if res.Fatal {
-					classes[i] = "fatal"
-					errs[i] = firstLine(res.Err)
-				}
-			case <-time.After(12 * time.Second):
-				classes[i] = "fatal"
-				errs[i] = "no answer within 12 s"
-			}
-			p.End()
-		}
-	})
+	classes, errs := isolatedExec(r, stmts, "id,v\n1,a\n2,b\n3,\n")
 	for i, s := range stmts {
 		r.Distinct(s)
 		fn := s
@@ -523,4 +505,157 @@ func failKind(e string) string {
 		e = e[:24]
 	}
 	return strings.ReplaceAll(e, " ", "-")
+}
+
+
+// ---------------------------------------------------------------------------
+// isolated execution: statements that may exhaust memory or never return are evaluated in-process by worker
+// children of this executable running under an address-space limit; a worker prints "S <i>" before and
+// "D <i> <class> <error>" after each statement.  When a worker dies (out of memory) or a statement does not
+// return within 12 s, the statement it was at is the culprit and a new worker continues after it.
+// ---------------------------------------------------------------------------
+
+func init() {
+	Workers["__exec"] = execWorker
+}
+
+func execWorker(args []string) int {
+	if len(args) < 4 {
+		return 2
+	}
+	dir, file := args[0], args[1]
+	from, _ := strconv.Atoi(args[2])
+	to, _ := strconv.Atoi(args[3])
+	b, err := os.ReadFile(file)
+	if err != nil {
+		return 2
+	}
+	stmts := strings.Split(string(b), "\x00")
+	out := bufio.NewWriter(os.Stdout)
+	defer out.Flush()
+	var p *sut.Proc
+	for i := from; i < to && i < len(stmts); i++ {
+		fmt.Fprintf(out, "S %d\n", i)
+		out.Flush()
+		// one session serves many expressions; statements that declare something get a fresh one
+		if p != nil && strings.Contains(stmts[i], "DECLARE") {
+			p.End()
+			p = nil
+		}
+		if p == nil {
+			var err error
+			if p, err = sut.NewProc(dir, nil); err != nil {
+				return 2
+			}
+		}
+		done := make(chan sut.Res, 1)
+		go func(s string) { done <- p.Exec(s) }(stmts[i])
+		select {
+		case res := <-done:
+			cl, e := "ok", ""
+			if res.Fatal {
+				cl, e = "fatal", firstLine(res.Err)
+			}
+			fmt.Fprintf(out, "D %d %s %s\n", i, cl, strings.ReplaceAll(e, "\n", " "))
+			if res.Fatal || res.Err != "" && strings.Contains(stmts[i], "DECLARE") {
+				p.End()
+				p = nil
+			}
+		case <-time.After(8 * time.Second):
+			fmt.Fprintf(out, "D %d fatal no answer within 8 s\n", i)
+			out.Flush()
+			return 3 // the evaluation is still running: this process cannot be used any further
+		}
+	}
+	if p != nil {
+		p.End()
+	}
+	return 0
+}
+
+// isolatedExec returns, per statement, the class ("ok" | "fatal") and the error text of fatal ones.
+func isolatedExec(r *core.Run, orig []string, tcsv string) ([]string, []string) {
+	// neighbours (the same function with other arguments) go to different workers: the slow ones spread out
+	nw := 8
+	var perm []int
+	for w := 0; w < nw; w++ {
+		for i := w; i < len(orig); i += nw {
+			perm = append(perm, i)
+		}
+	}
+	stmts := make([]string, len(orig))
+	for k, i := range perm {
+		stmts[k] = orig[i]
+	}
+	pc, pe := isolatedExecOrdered(r, stmts, tcsv, nw)
+	classes := make([]string, len(orig))
+	errs := make([]string, len(orig))
+	for k, i := range perm {
+		classes[i], errs[i] = pc[k], pe[k]
+	}
+	return classes, errs
+}
+
+func isolatedExecOrdered(r *core.Run, stmts []string, tcsv string, nw int) ([]string, []string) {
+	classes := make([]string, len(stmts))
+	errs := make([]string, len(stmts))
+	self, err := os.Executable()
+	if err != nil {
+		core.Fail("executable: %v", err)
+	}
+	file := filepath.Join(r.Dir("iso"), "stmts")
+	writeFile(file, strings.Join(stmts, "\x00"))
+	chunk := (len(stmts) + nw - 1) / nw
+	core.Parallel(nw, nw, func(w int) {
+		dir := r.Dir(fmt.Sprintf("iso%d", w))
+		writeFile(filepath.Join(dir, "t.csv"), tcsv)
+		from, to := w*chunk, (w+1)*chunk
+		if to > len(stmts) {
+			to = len(stmts)
+		}
+		for from < to {
+			cmd := exec.Command("sh", "-c", "ulimit -v 4000000; exec \"$0\" \"$@\"", self, "__exec", dir, file, strconv.Itoa(from), strconv.Itoa(to))
+			cmd.Env = append(os.Environ(), "GOMAXPROCS=2", "GOMEMLIMIT=3GiB")
+			outb, _ := cmd.Output()
+			cur := -1
+			sc := bufio.NewScanner(bytes.NewReader(outb))
+			sc.Buffer(make([]byte, 1<<20), 1<<20)
+			for sc.Scan() {
+				f := strings.SplitN(sc.Text(), " ", 4)
+				if len(f) < 2 {
+					continue
+				}
+				i, e := strconv.Atoi(f[1])
+				if e != nil || i < from || i >= to {
+					continue
+				}
+				switch f[0] {
+				case "S":
+					cur = i
+				case "D":
+					if len(f) >= 3 {
+						classes[i] = f[2]
+					}
+					if len(f) == 4 {
+						errs[i] = f[3]
+					}
+				}
+			}
+			if cur < 0 {
+				core.Fail("isolated worker produced nothing for statements %d..%d", from, to)
+			}
+			if classes[cur] == "" {
+				// the worker died while evaluating statement cur
+				classes[cur] = "fatal"
+				errs[cur] = "process killed: out of memory (address space limit 4 GB)"
+			}
+			from = cur + 1
+		}
+	})
+	for i := range classes {
+		if classes[i] == "" {
+			core.Fail("isolated execution lost statement %d", i)
+		}
+	}
+	return classes, errs
 }
